@@ -293,7 +293,8 @@ def simulate(d, valid=None):
 class Check(PropCheck):
     id = 'C15'
     stream = 'C15'
-    extra_modules = ('AHP.Props.XPathEndToEnd',)      # C14 + C15 composed: text, any cache history, denotation
+    extra_modules = ('AHP.Props.XPathEndToEnd',       # C14 + C15 composed: text, any cache history, denotation
+                     'AHP.Props.C15Code')             # the methods of xpath/_cache.py themselves, interpreted in Lean, = Cache.get / Cache.set
     exhaustive_in = ('thorough',)
     rule = ('histories of compile / evaluate / reuse events on the process-wide compiled-expression cache: every sequence of '
             '6 query events (all prefixes observed) over 5 expressions (3 valid, 1 failing at run time, 1 invalid) with the '
